@@ -628,11 +628,6 @@ package fsm
 //@   ensures forall q string :: old(p.fs.vHas[q]) ==> p.fs.vHas[q]
 //@   ensures forall q string :: old(p.fs.opened[q]) ==> p.fs.opened[q]
 //@   modifies p.fs.vHas, p.fs.opened
-//@ iface vfs.FS.Stat
-//@   assumed
-//@   results info, err
-//@   ensures err == nil ==> info != nil
-//@   modifies nothing
 //@ func prometheus.Register
 //@   assumed
 //@   modifies nothing
@@ -1050,14 +1045,6 @@ package fsm
 //@   requires c != nil && c.fsm != nil && c.fsm.pebble.v != nil
 //@   ensures [C08.pit.checkpoint] err == nil ==> typeIs(ctx, *checkpointContext) && asType(ctx, *checkpointContext) != nil && c.fsm.pebble.v.ncheckpoint == old(c.fsm.pebble.v.ncheckpoint) + 1 && c.fsm.pebble.v.nflush == old(c.fsm.pebble.v.nflush) + 1
 //@   modifies c.fsm.pebble.v.ncheckpoint, c.fsm.pebble.v.nflush
-//@ iface vfs.FS.List
-//@   assumed
-//@   modifies nothing
-//@ iface vfs.FS.Open
-//@   assumed
-//@   results f, err
-//@   ensures err == nil ==> f != nil
-//@   modifies nothing
 //@ func tar.NewWriter
 //@   assumed
 //@   ensures result != nil && fresh(result)
